@@ -59,9 +59,9 @@ class DictArray(StorageBase):
         np_index = np.unravel_index(index, self.shape)
         return np_index in self._dict
 
-    def _internal_mask(self) -> np.ma.MaskedArray:
-        if self.internal_shape:
-            return np.ma.empty(self.internal_shape, dtype=object)
+    def _internal_mask(self) -> np.ma.core.MaskedConstant:
+        # A key always has the full rank, so a missing element is a single
+        # masked element, also when the array has internal dimensions.
         return np.ma.masked
 
     def __getitem__(self, key: tuple[int | slice, ...]) -> Any:
@@ -84,7 +84,7 @@ class DictArray(StorageBase):
                         arr = np.asarray(self._dict[external_key])
                         value = arr[internal_key]
                     else:
-                        value = self._internal_mask()[internal_key]
+                        value = self._internal_mask()
                 else:  # noqa: PLR5501
                     if external_key in self._dict:
                         value = self._dict[external_key]
